@@ -130,9 +130,14 @@ RECURSIVE TraceFrom(_, _, _)
 TraceFrom(k, i, ln) ==
   IF i > Len(k) THEN <<>>
   ELSE IF k[i].f = "call"
-       THEN TraceFrom(k, i + 1, k[i].ln) \o <<[fn |-> k[i].fn, ln |-> ln]>>
+       THEN TraceFrom(k, i + 1, k[i].ln) \o <<[fn |-> k[i].fn, ln |-> ln, gen |-> k[i].gen # 0]>>
        ELSE TraceFrom(k, i + 1, ln)
-TraceAt(ln) == TraceFrom(kont, 1, ln)
+\* DEVIATION "generator_frames_missing_in_trace": an error thrown while a generator runs reports only
+\* the frames up to the caller of `next`; the generator's own frame and everything it called are lost
+RECURSIVE UpToGenerator(_, _)
+UpToGenerator(tr, i) == IF i > Len(tr) \/ tr[i].gen THEN <<>> ELSE <<tr[i]>> \o UpToGenerator(tr, i + 1)
+TraceAt(ln) == LET full == TraceFrom(kont, 1, ln)
+               IN IF "generator_frames_missing_in_trace" \in Deviations THEN UpToGenerator(full, 1) ELSE full
 
 BindParams(params, vals, en, cs) ==
   [env |-> en \o [i \in 1..Len(params) |-> <<params[i], Len(cs) + i>>],
